@@ -1,5 +1,5 @@
 SPECIFICATION Spec
-CONSTANTS Rich = FALSE
+CONSTANTS Level = 2
  MutDepth = 2
 INVARIANT SchemaTyped
 INVARIANT RefSound
